@@ -23,7 +23,8 @@ type c06Consumer struct {
 	Kind   string // ts | rtsp-tcp | rtsp-udp | hls
 	JoinAt int    // message index before which it joins (≥ number of header messages)
 	http   *srv.HttpSub
-	rtsp   *ref.RtspClient
+	rtsp   *ref.RtspClient // set by the join goroutine; read through live() until joinWg.Wait()
+	rtspMu sync.Mutex
 	sdp    ref.Sdp
 	err    string
 	udpErr [2]int64
@@ -32,6 +33,12 @@ type c06Consumer struct {
 // normalizeNals drops AUD, parameter sets equal to the ones in force for frame fi and (tsSide)
 // HEVC SEI. A parameter set that was published but is NOT in force for that frame (the stream
 // changes its PPS once when Spec.PsChange is set) is reported as stale, anything else as foreign.
+func (cn *c06Consumer) live() *ref.RtspClient {
+	cn.rtspMu.Lock()
+	defer cn.rtspMu.Unlock()
+	return cn.rtsp
+}
+
 func c06Normalize(es *gen.EsStream, nals [][]byte, dropHevcSei bool) (out [][]byte, foreignPS bool) {
 	out, foreignPS, _ = c06NormalizeAt(es, -1, nals, dropHevcSei)
 	return
@@ -702,7 +709,9 @@ func c06Run(c *fw.Ctx, i int) {
 						cn.err = err.Error()
 						return
 					}
+					cn.rtspMu.Lock()
 					cn.rtsp = rc
+					cn.rtspMu.Unlock()
 					cn.sdp, err = rc.Play("rtsp://"+s.RtspAddr()+"/live/"+name, cn.Kind == "rtsp-udp", 20*time.Second)
 					if err != nil {
 						cn.err = err.Error()
@@ -730,8 +739,8 @@ func c06Run(c *fw.Ctx, i int) {
 			for w := 0; w < 400 && still < 5; w++ {
 				n := 0
 				for _, cn := range cons {
-					if cn.rtsp != nil {
-						n += cn.rtsp.NumPackets()
+					if rc := cn.live(); rc != nil {
+						n += rc.NumPackets()
 					}
 				}
 				if n == last {
